@@ -80,10 +80,18 @@ PLACES = ("", "components/c", "examples/pa", "examples/pa/main", "examples/pa/ne
           # between, a project nested in the nested project, and a plain directory of pa that has the base name of a project
           # sitting directly below pa's root
           "examples/pa/main/nested", "examples/pa/nested/inner", "examples/pa/apps", "examples/pa/apps/unit",
-          "examples/pa/apps/unit/main", "examples/pa/apps/grp", "examples/pa/apps/grp/deep")
+          "examples/pa/apps/unit/main", "examples/pa/apps/grp", "examples/pa/apps/grp/deep",
+          # TWIN family: project directories with the SAME base name under different parents (projects alpha and beta, and a
+          # plain directory grp), as ESP-IDF's many `test_apps` directories
+          "examples/alpha", "examples/alpha/test_apps", "examples/beta", "examples/beta/test_apps", "examples/grp/test_apps")
 N_ENUM_PLACES = 7
 CHAINS = (("examples/pa/main", "examples/pa/main/sub", "examples/pa/main/sub/deep"), ("examples/common", "examples/common/sub", "examples/common/sub/deep"))
-PROJECTS = ("examples/pa", "examples/pa/nested", "examples/pb", "examples/pa/nested/inner", "examples/pa/apps/unit", "examples/pa/apps/grp/deep")
+PROJECTS = ("examples/pa", "examples/pa/nested", "examples/pb", "examples/pa/nested/inner", "examples/pa/apps/unit", "examples/pa/apps/grp/deep",
+            "examples/alpha", "examples/alpha/test_apps", "examples/beta", "examples/beta/test_apps", "examples/grp/test_apps")
+TWIN_PLACES = ("examples/alpha", "examples/alpha/test_apps", "examples/beta", "examples/beta/test_apps", "examples/grp/test_apps")
+# spellings of IDF_PATH that all denote the IDF root (the file arguments are spelled through the real path, except "link+files")
+SPELLINGS = ("slash", "dslash", "dotdot", "dot", "rel_parent", "rel_dot", "rel_up", "link+files")
+SPELLINGS_QUICK = ("slash", "dslash", "dotdot", "rel_parent", "link+files")
 DEEP_PLACES = ("examples/pa", "examples/pa/main", "examples/pa/main/nested", "examples/pa/nested", "examples/pa/nested/inner",
                "examples/pa/apps", "examples/pa/apps/unit", "examples/pa/apps/unit/main", "examples/pa/apps/grp", "examples/pa/apps/grp/deep")
 DEFAULTS_NAME = {
@@ -105,6 +113,11 @@ DEFAULTS_NAME = {
     "examples/pa/apps/unit/main": "sdkconfig.ci",
     "examples/pa/apps/grp": "sdkconfig.defaults.esp32",
     "examples/pa/apps/grp/deep": "sdkconfig.defaults",
+    "examples/alpha": "sdkconfig.defaults",
+    "examples/alpha/test_apps": "sdkconfig.defaults",
+    "examples/beta": "sdkconfig.ci",
+    "examples/beta/test_apps": "sdkconfig.defaults",
+    "examples/grp/test_apps": "sdkconfig.ci.grp",
 }
 CONTENTS = ("X", "Y", "XY")
 INCLUDE_DIRS_QUICK = (("examples",), ("examples/pa",))
@@ -258,6 +271,41 @@ def deep_layouts(tier: str):
                 }
 
 
+def in_tier_spell(ren, dfl, tier: str) -> bool:
+    r, d = len(ren), len(dfl)
+    if _one_option(ren, dfl):
+        return r <= (3 if tier == "thorough" else 2) and d <= 2
+    return tier == "thorough" and r + d <= 3 and (r + d < 3 or (_no_xy(ren) and _no_xy(dfl)))
+
+
+def _family(family: str, universe: Tuple[int, ...], accept, tier: str):
+    rens = list(_assignments(3, CONTENTS, 0, universe))
+    dfls = list(_assignments(3, CONTENTS, 1, universe))
+    for ren in rens:
+        for dfl in dfls:
+            if not accept(ren, dfl, tier):
+                continue
+            if (ren, dfl) > (_swap(ren), _swap(dfl)):
+                continue  # X<->Y mirror image is enumerated instead
+            for rootproj in (False, True):
+                yield {
+                    "family": family,
+                    "rootproj": rootproj,
+                    "renames": {PLACES[p]: c for p, c in ren},
+                    "defaults": {PLACES[p]: c for p, c in dfl},
+                }
+
+
+def spell_layouts(tier: str):
+    """SPELL family: the 7 places of the basic skeleton; checked under every spelling of IDF_PATH"""
+    yield from _family("spell", tuple(range(N_ENUM_PLACES)), in_tier_spell, tier)
+
+
+def twin_layouts(tier: str):
+    """TWIN family: the 5 places alpha, alpha/test_apps, beta, beta/test_apps, grp/test_apps (same bounds as the basic family)"""
+    yield from _family("twin", tuple(PLACES.index(p) for p in TWIN_PLACES), in_tier, tier)
+
+
 def layouts(tier: str):
     rens = list(_assignments(3, CONTENTS))
     dfls = list(_assignments(3, CONTENTS, 1))
@@ -279,6 +327,8 @@ def layouts(tier: str):
             for rootproj in (False, True):
                 yield {"rootproj": rootproj, "renames": {PLACES[p]: c for p, c in ren}, "defaults": {p: "X" for p in chain}}
     yield from deep_layouts(tier)
+    yield from spell_layouts(tier)
+    yield from twin_layouts(tier)
 
 
 def variants(layout: dict, tier: str) -> List[Tuple[tuple, bool]]:
@@ -286,6 +336,20 @@ def variants(layout: dict, tier: str) -> List[Tuple[tuple, bool]]:
     ordered selection; otherwise singletons + the full list forward and reversed (variants that only change the global set)."""
     rp = tuple(layout["renames"])
     thorough = tier == "thorough"
+    if layout.get("family") == "spell":
+        # the plain spelling first: the others are compared with it (run_layout)
+        out = [(("env", (), ()), True)]
+        out += [(("env:" + sp, (), ()), True) for sp in (SPELLINGS if thorough else SPELLINGS_QUICK)]
+        if thorough:
+            out.append((("env", (), ("examples/pa",)), False))
+            out += [(("env:" + sp, (), ("examples/pa",)), False) for sp in SPELLINGS]
+        return out
+    if layout.get("family") == "twin":
+        out = [(("env", (), ()), True), (("cwd", (), ()), True)]
+        if thorough:
+            out += [(("env", (), ("examples/alpha/test_apps",)), True), (("env", (), ("examples/grp",)), True)]
+            out += [(("env", (p,), ()), False) for p in rp]
+        return out
     deep = layout.get("family") == "deep"
     if deep:
         incs = DEEP_INCLUDE_DIRS_THOROUGH if thorough else DEEP_INCLUDE_DIRS_QUICK
@@ -359,6 +423,10 @@ def build_tree(layout: dict) -> str:
             f.write('idf_component_register(SRCS "main.c")\n')
         with open(os.path.join(base, "components/c", "CMakeLists.txt"), "w") as f:
             f.write('idf_component_register(SRCS "c.c")\n')
+        link = os.path.join(os.path.dirname(base), "idf_link")  # a second name of the IDF root (SPELL family)
+        if os.path.lexists(link):
+            os.unlink(link)
+        os.symlink("idf", link)
         _tree.clear()
         _tree.update(base=base, files=[], rootproj=False)
     for fp in _tree["files"]:
@@ -429,6 +497,32 @@ def fpath(base: str, place: str) -> str:
     return os.path.join(base, place, DEFAULTS_NAME[place]) if place else os.path.join(base, DEFAULTS_NAME[place])
 
 
+def spell_idf_path(base: str, how: str) -> Tuple[str, Optional[str], str]:
+    """(value of IDF_PATH, working directory or None, prefix the file arguments are spelled with) for one spelling of the
+    IDF root `base` (an absolute, normalised path without symbolic links)"""
+    parent_dir, name = os.path.split(base)
+    if how == "":
+        return base, None, base
+    if how == "slash":
+        return base + os.sep, None, base
+    if how == "dslash":
+        return parent_dir + os.sep + os.sep + name, None, base
+    if how == "dotdot":
+        return os.path.join(base, "components", ".."), None, base
+    if how == "dot":
+        return os.path.join(parent_dir, ".", name, "."), None, base
+    if how == "rel_parent":
+        return name, parent_dir, base
+    if how == "rel_dot":
+        return ".", base, base
+    if how == "rel_up":
+        return os.path.join("..", ".."), os.path.join(base, "examples", "pa"), base
+    if how == "link+files":  # a symbolic link to the IDF root; the files are named through the same link
+        link = os.path.join(parent_dir, "idf_link")
+        return link, None, link
+    raise ValueError(how)
+
+
 def invoke(base: str, variant: tuple, order: Tuple[str, ...]) -> Tuple[List[Tuple[str, Optional[bool]]], List[str]]:
     """One kconfcheck invocation. Returns ([(absolute file, verdict)] in check order, files list after prepare)."""
     m = mod()
@@ -439,10 +533,16 @@ def invoke(base: str, variant: tuple, order: Tuple[str, ...]) -> Tuple[List[Tupl
     argv = argv + ex if len(ex) == 1 else ex + argv
     saved_env = os.environ.get("IDF_PATH")
     cwd = os.getcwd()
+    fbase = base
     try:
-        if via == "env":
-            os.environ["IDF_PATH"] = base
-            inc = tuple(os.path.join(base, d) if d else base for d in includes)
+        if via.startswith("env"):
+            spelling, chdir_to, fbase = spell_idf_path(base, via[4:])
+            if fbase != base:
+                argv = [fbase + a[len(base) :] if a.startswith(base + os.sep) else a for a in argv]
+            os.environ["IDF_PATH"] = spelling
+            inc = tuple(os.path.join(fbase, d) if d else fbase for d in includes)
+            if chdir_to is not None:
+                os.chdir(chdir_to)
         else:
             os.environ.pop("IDF_PATH", None)
             os.chdir(base)
@@ -456,7 +556,11 @@ def invoke(base: str, variant: tuple, order: Tuple[str, ...]) -> Tuple[List[Tupl
                 out.append((os.path.abspath(full_path), m.check_deprecated_options(full_path, glob, local, ignore_dirs, cache, abs_idf)))
         except Exception as e:  # noqa: BLE001 -- an exception out of the code under test is an observation
             raise ImplRaised(e) from e
-        return out, [os.path.abspath(f) for f in files]
+        files = [os.path.abspath(f) for f in files]
+        if fbase != base:  # report under the real name of the tree
+            out = [(base + a[len(fbase) :] if a.startswith(fbase + os.sep) else a, v) for a, v in out]
+            files = [base + a[len(fbase) :] if a.startswith(fbase + os.sep) else a for a in files]
+        return out, files
     finally:
         os.chdir(cwd)
         if saved_env is None:
@@ -586,14 +690,46 @@ def check_group(layout: dict, variant: tuple, order_list: List[Tuple[str, ...]],
     return {p: (True in s) for p, s in sorted(seen.items())}
 
 
+def compare_spellings(layout: dict, plain: tuple, variant: tuple, order_list: List[Tuple[str, ...]], r: common.Result,
+                      plain_verd: Dict[str, bool], verd: Dict[str, bool]) -> None:  # fmt: skip
+    """O4: a spelling of IDF_PATH that denotes the same directory gives every file the verdict of the plain spelling"""
+    for fplace in sorted(set(plain_verd) | set(verd)):
+        if plain_verd.get(fplace) == verd.get(fplace):
+            continue
+        word = {True: "flagged", False: "not flagged", None: "not reported"}
+        r.violation(
+            {
+                "kind": "idf_path_spelling_dependence",
+                "site": "check_deprecated_options.py:_prepare_deprecated_options",
+                "spelling": variant[0],
+                "file_at": fplace,
+                "became": word[verd.get(fplace)].replace(" ", "_"),
+                "root_is_project": layout["rootproj"],
+                "includes": bool(variant[2]),
+            },
+            f"file at {fplace!r}: {word[plain_verd.get(fplace)]} with IDF_PATH=<idf>, {word[verd.get(fplace)]} with the spelling {variant[0]!r} "
+            f"({spell_idf_path('<parent>/idf', variant[0][4:])[0]}); rename files {layout['renames']}, defaults {layout['defaults']}",
+            {"layout": layout, "variant": [variant[0], list(variant[1]), list(variant[2])], "orders": [list(o) for o in order_list],
+             "compare_with": [plain[0], list(plain[1]), list(plain[2])]},
+        )
+
+
 def run_layout(layout: dict, tier: str, r: common.Result) -> None:
     base = build_tree(layout)
     dplaces = tuple(layout["defaults"])
     first = None
+    plain_verds: Dict[tuple, Dict[str, bool]] = {}
     for variant, full in variants(layout, tier):
         verd = check_group(layout, variant, orders(dplaces, full), r, base)
+        if layout.get("family") == "spell":
+            if variant[0] == "env":
+                plain_verds[variant[1:]] = verd
+            else:
+                compare_spellings(layout, ("env",) + variant[1:], variant, orders(dplaces, full), r, plain_verds[variant[1:]], verd)
+                r.count("spelling_" + variant[0][4:])
         _via, explicit, includes = variant
-        r.outcome((layout["rootproj"], sorted(layout["renames"].items()), sorted(layout["defaults"].items()), explicit, includes, sorted(verd.items())))
+        r.outcome((layout["rootproj"], sorted(layout["renames"].items()), sorted(layout["defaults"].items()), explicit, includes, sorted(verd.items()))
+                  + ((_via,) if _via not in ("env", "cwd") else ()))  # fmt: skip
         if first is None:
             first = verd
     r.sample = {"layout": layout, "verdicts_plain": first, "invocations": r.evals}
@@ -623,7 +759,12 @@ def replay(case) -> List[dict]:
             r.violation(v["sig"], v["msg"], v["case"])
         return r.viols
     base = build_tree(layout)
-    check_group(layout, variant, [tuple(o) for o in case["orders"]], r, base)
+    order_list = [tuple(o) for o in case["orders"]]
+    verd = check_group(layout, variant, order_list, r, base)
+    if case.get("compare_with"):
+        pv, pe, pi = case["compare_with"]
+        plain = (pv, tuple(pe), tuple(pi))
+        compare_spellings(layout, plain, variant, order_list, r, check_group(layout, plain, order_list, r, base), verd)
     return r.viols
 
 
